@@ -33,6 +33,9 @@ fn dir_shapes() -> Vec<DirShape> {
         vec![vec![]],
         vec![vec![vec![1]]],
         vec![vec![vec![64]], vec![vec![7]]],
+        // two sync managers that both end inside a byte: per-SM rounding differs from per-device rounding
+        vec![vec![vec![4]], vec![vec![4]]],
+        vec![vec![vec![3]], vec![vec![12]]],
     ]
 }
 
@@ -181,6 +184,8 @@ fn out_byte(d: usize, i: usize) -> u8 {
 pub struct NetCase {
     pub shapes: Vec<DevShape>,
     pub assign: Vec<u8>,
+    /// Ethernet frame capacity of the MainDevice (1100 = one LRW per cycle; 44 = 16 data bytes per frame)
+    pub frame: usize,
 }
 
 pub struct CaseOut {
@@ -194,7 +199,7 @@ fn run_case<const PDI: usize>(case: &NetCase, expect_too_long: bool) -> CaseOut 
     let built: Vec<Built> = case.shapes.iter().enumerate().map(|(i, s)| build(i, s)).collect();
     let windows: Vec<Vec<(u8, u16, usize, bool)>> = built.iter().map(|b| b.windows.clone()).collect();
     let os: Vec<&'static [(u16, u16)]> = built.iter().map(|b| b.oversample_cfg).collect();
-    let mut net = Net::new(Segment::new(built.into_iter().map(|b| b.dev).collect()));
+    let mut net = Net::with_size(Segment::new(built.into_iter().map(|b| b.dev).collect()), crate::net::timeouts(), ethercrab::RetryBehaviour::None, case.frame);
     let md = net.md();
     let assign = case.assign.clone();
     let os2 = os.clone();
@@ -446,7 +451,7 @@ pub fn c08(tier: &Tier) -> Result<i32, String> {
     rep.rule = "device shapes enumerated from a grammar: per direction one of 8 sync-manager/PDO layouts (0..=2 sync managers at non-adjacent physical windows, 0..=2 PDOs each, entry bit lengths from {1,7,8,9,16,64}), configured from EEPROM or from CoE assignment objects, with/without FMMU_EX, oversampling 1 or 2 on the first PDO; all single-device networks, pairs and triples of representative shapes in every split over 1..=3 groups; image capacity = the smallest instantiated size that fits, and the largest that does not; end-to-end oracle: tagged patterns through one tx_rx cycle compared with the devices' process memory and input windows; structural clauses from the FMMU registers programmed into the devices; non-trivial = every network".into();
     rep.assumptions = vec![
         "process-data sync managers are modelled as guarded RAM, FMMUs byte-wise (DESIGN.md appendix E); 16 functional FMMUs/SMs so that the choice of FMMU index is never judged".into(),
-        "frames are large enough for one LRW per cycle".into(),
+        "frame capacity 1100 (one LRW per cycle) and, for pairs and half of the triples, 44 (16 data bytes per LRW, the image is split over several frames)".into(),
     ];
     let ds = dir_shapes();
     let mut cases: Vec<NetCase> = Vec::new();
@@ -459,7 +464,7 @@ pub fn c08(tier: &Tier) -> Result<i32, String> {
                         if os == 2 && ds[i].iter().all(|sm| sm.is_empty()) && ds[o].iter().all(|sm| sm.is_empty()) {
                             continue;
                         }
-                        cases.push(NetCase { shapes: vec![DevShape { inputs: ds[i].clone(), outputs: ds[o].clone(), coe, fmmu_ex: fx, oversampling: os }], assign: vec![0] });
+                        cases.push(NetCase { shapes: vec![DevShape { inputs: ds[i].clone(), outputs: ds[o].clone(), coe, fmmu_ex: fx, oversampling: os }], assign: vec![0], frame: 1100 });
                     }
                 }
             }
@@ -472,11 +477,19 @@ pub fn c08(tier: &Tier) -> Result<i32, String> {
         DevShape { inputs: ds[0].clone(), outputs: ds[3].clone(), coe: true, fmmu_ex: false, oversampling: 1 },
         DevShape { inputs: ds[6].clone(), outputs: ds[2].clone(), coe: true, fmmu_ex: false, oversampling: 2 },
         DevShape { inputs: ds[5].clone(), outputs: ds[6].clone(), coe: false, fmmu_ex: false, oversampling: 1 },
+        DevShape { inputs: ds[8].clone(), outputs: ds[9].clone(), coe: false, fmmu_ex: false, oversampling: 1 },
+        DevShape { inputs: ds[3].clone(), outputs: ds[3].clone(), coe: false, fmmu_ex: false, oversampling: 1 },
     ];
+    // 16-byte frames cannot carry a mailbox message: the split variant is for EEPROM-configured devices
+    let small_ok = |shapes: &[&DevShape]| shapes.iter().all(|s| !s.coe);
     for a in 0..reps.len() {
         for b in 0..reps.len() {
             for split in [vec![0u8, 0], vec![0, 1]] {
-                cases.push(NetCase { shapes: vec![reps[a].clone(), reps[b].clone()], assign: split });
+                cases.push(NetCase { shapes: vec![reps[a].clone(), reps[b].clone()], assign: split.clone(), frame: 1100 });
+                // the same network with frames that carry 16 process data bytes: the image is split
+                if small_ok(&[&reps[a], &reps[b]]) {
+                    cases.push(NetCase { shapes: vec![reps[a].clone(), reps[b].clone()], assign: split, frame: 44 });
+                }
             }
             if tier.thorough || (a + b) % 3 == 0 {
                 for c in 0..reps.len() {
@@ -484,7 +497,10 @@ pub fn c08(tier: &Tier) -> Result<i32, String> {
                         if !tier.thorough && (a + b + c) % 2 == 1 {
                             continue;
                         }
-                        cases.push(NetCase { shapes: vec![reps[a].clone(), reps[b].clone(), reps[c].clone()], assign: split });
+                        cases.push(NetCase { shapes: vec![reps[a].clone(), reps[b].clone(), reps[c].clone()], assign: split.clone(), frame: 1100 });
+                        if (a + c) % 2 == 0 && small_ok(&[&reps[a], &reps[b], &reps[c]]) {
+                            cases.push(NetCase { shapes: vec![reps[a].clone(), reps[b].clone(), reps[c].clone()], assign: split, frame: 44 });
+                        }
                     }
                 }
             }
